@@ -73,6 +73,11 @@ def obligations(tier):
                                 obs.append({'h': 'loop', 'kind': kind, 'req': req, 'place': place, 'codes': codes, 'excs': excs,
                                             'ret': r, 'term': list(term), 'nmax': nmax if deep else nmax - 1,
                                             '_weight': 10 + 50 * deep})
+                                if place == 'client' and codes == 'one' and excs == 'timeout' and req == 'single' and ret == RETRYABLE_PAIRS[0] and term == TERMINAL_PAIRS[0]:
+                                    # the other backoff families through the real loop, with concrete parameters that reach the cap
+                                    for bk in ('exp_decay', 'exp_spike', 'fib'):
+                                        obs.append({'h': 'loop', 'kind': kind, 'req': req, 'place': place, 'codes': codes, 'excs': excs,
+                                                    'ret': r, 'term': list(term), 'nmax': nmax, 'backoff': bk, '_weight': 30})
                                 if place in ('client', 'request') and codes == 'one' and excs == 'timeout' and req != 'notif':
                                     # the same, as the SECOND request of a client whose first request was retried once:
                                     # budget and backoff are per request, not per client
@@ -129,12 +134,29 @@ def h_loop(ob):
         def jitter():
             jc[0] += 1
             return (jc[0] - 1) * 0.25
+
+        def jitter_index():
+            jc[0] += 1
+            return jc[0] - 1
         codes = CODESETS[ob['codes']]
         excs = {TimeoutError} if ob['excs'] == 'timeout' else None
         # delays are pairwise distinct (1.5, 1.75, 2.0, ...) so that the ORDER of the backoff's delays is observable
-        strategy = retry_mod.RetryStrategy(
-            backoff=retry_mod.PeriodicBackoff(attempts=n, interval=interval, jitter=jitter),
-            codes=codes, exceptions=excs)
+        bk = ob.get('backoff')
+        if bk == 'exp_decay':       # base*factor^k with factor < 1 and a cap below the first delay: 3, 2, 1, 0.5, ...
+            backoff = retry_mod.ExponentialBackoff(attempts=n, base=4.0, factor=0.5, max_value=3.0)
+            delay = lambda k: min(3.0, 4.0 * 0.5 ** k)  # noqa: E731
+        elif bk == 'exp_spike':     # a jitter spike over the cap in the middle: 1, 5, 4, 5, ...
+            spikes = [0.0, 4.0, 0.0, 0.0, -1.0, 0.0, 0.0, 0.0]
+            backoff = retry_mod.ExponentialBackoff(attempts=n, base=1.0, factor=2.0, max_value=5.0, jitter=lambda: spikes[jitter_index()])
+            delay = lambda k: min(5.0, 2.0 ** k + spikes[k])  # noqa: E731
+        elif bk == 'fib':
+            fibs = [1, 2, 3, 5, 8, 13, 21, 34]
+            backoff = retry_mod.FibonacciBackoff(attempts=n, multiplier=1.0, max_value=4.0, jitter=jitter)
+            delay = lambda k: min(4.0, fibs[k] + 0.25 * k)  # noqa: E731
+        else:
+            backoff = retry_mod.PeriodicBackoff(attempts=n, interval=interval, jitter=jitter)
+            delay = lambda k: interval + 0.25 * k  # noqa: E731
+        strategy = retry_mod.RetryStrategy(backoff=backoff, codes=codes, exceptions=excs)
         other = retry_mod.RetryStrategy(backoff=retry_mod.PeriodicBackoff(attempts=ob['nmax'] + 3, interval=99),
                                         codes={2000, 2001}, exceptions={Exception})
         place = ob['place']
@@ -261,7 +283,7 @@ def h_loop(ob):
             else:
                 retryable = False
             if retryable and len(want_sleeps) < budget:
-                want_sleeps.append(interval + 0.25 * len(want_sleeps))
+                want_sleeps.append(delay(len(want_sleeps)))
                 k += 1
                 continue
             break
